@@ -311,7 +311,9 @@ func genCLI(out *bufio.Writer, rng *rand.Rand, count int) int {
 		}
 		var hexes []string
 		for i, f := range files {
-			p := filepath.Join(dir, fmt.Sprintf("w%d_%d.red", n, i))
+			// the name of a file says nothing about its contents
+			ext := []string{".red", ".red", ".rc", ".txt", "", ".RED", ".88", ".load"}[rng.Intn(8)]
+			p := filepath.Join(dir, fmt.Sprintf("w%d_%d%s", n, i, ext))
 			os.WriteFile(p, f, 0o644)
 			args = append(args, p)
 			hexes = append(hexes, hexd(f))
